@@ -1033,14 +1033,19 @@ class UpnpXmlSerializer:
             for allowed_value in state_variable.allowed_values:
                 ET.SubElement(value_list_el, "allowedValue").text = str(allowed_value)
 
-        if None not in (state_variable.min_value, state_variable.max_value):
+        if (
+            state_variable.min_value is not None
+            or state_variable.max_value is not None
+        ):
             value_range_el = ET.SubElement(state_var_el, "allowedValueRange")
-            ET.SubElement(value_range_el, "minimum").text = str(
-                state_variable.min_value
-            )
-            ET.SubElement(value_range_el, "maximum").text = str(
-                state_variable.max_value
-            )
+            if state_variable.min_value is not None:
+                ET.SubElement(value_range_el, "minimum").text = str(
+                    state_variable.min_value
+                )
+            if state_variable.max_value is not None:
+                ET.SubElement(value_range_el, "maximum").text = str(
+                    state_variable.max_value
+                )
 
         if state_variable.default_value is not None:
             ET.SubElement(state_var_el, "defaultValue").text = str(
